@@ -151,6 +151,19 @@ func c01Gen(g *core.Gen, emit func(*p2Case)) {
 			g.Emit(mk(bc, 1)(ds))
 		}
 	}
+	// same-size displacement: n bytes inserted at a and n bytes cut at b > a in one file (the length is what it was,
+	// everything between a and b sits n bytes later); two recovery blocks, which suffice whenever at most two slices
+	// are really gone
+	{
+		sd := scen.P2Config{Sizes: []int{30, 9}, Slice: 4, Blocks: 2, Class: "uniq"}
+		for n := 1; n <= 3; n++ {
+			for _, a := range []int{0, 1, 5, 13, 20} {
+				for b := a + 1; b <= 30; b++ {
+					g.Emit(mk(sd, 1)([]scen.Dmg{{Op: "ins", F: 0, At: a, N: n}, {Op: "cut", F: 0, At: b, N: n}}))
+				}
+			}
+		}
+	}
 	dup := scen.P2Config{Sizes: []int{9, 9}, Slice: 4, Blocks: 3, Class: "uniq", DupFile: true}
 	genP2Deviations(g, dup, true, 1, mk(dup, 1))
 	coll := scen.P2Config{Sizes: []int{27, 20}, Slice: 8, Blocks: 3, Class: "crccollide"}
